@@ -245,6 +245,11 @@ def run_scenario(seed, shard, idx, tier):
     plans = fault_plans(rng, recipe, base, tier)
     if want_lines and base.lines > 0:
         count = 3 if tier == "quick" else 12
+        if recipe["tool"] == "yaml-merge":
+            # several inputs are loaded one after the other: more of the run
+            # is "load phase", where an aborted load must not pass for a
+            # document
+            count *= 3
         for _ in range(count):
             plans.append({"kind": "interrupt",
                           "step": rng.randrange(base.lines), "arg": None})
